@@ -93,12 +93,6 @@ func runAnalyzerCampaign(tier string, seed int64) (*analyzerCampaign, error) {
 			recs = append(recs, r.Rec)
 		}
 	}
-	if err := copySpecs(scratch); err != nil {
-		return ac, err
-	}
-	if err := writeNDJSON(filepath.Join(scratch, "trace.ndjson"), recs); err != nil {
-		return ac, err
-	}
 	if len(recs) == 0 {
 		return ac, fmt.Errorf("no record to validate")
 	}
@@ -106,7 +100,7 @@ func runAnalyzerCampaign(tier string, seed int64) (*analyzerCampaign, error) {
 	if tier == "thorough" {
 		to = 40 * time.Minute
 	}
-	ac.tlc, err = RunTLC(scratch, TLCOpts{Module: "Trace_Analyzer", Workers: nWorkers(), Timeout: to, Defines: map[string]string{"K": "16"}})
+	ac.tlc, err = RunTraceValidation(scratch, "Trace_Analyzer", recs, to)
 	return ac, err
 }
 
